@@ -35,8 +35,10 @@ SPEC = {
 
 DESCS = ['STARBUCKS #123', 'AMAZON, INC', 'He said "hi"', 'Café Ünïcode 東京', '  padded  ', 'line\nbreak', 'semi;colon|pipe\ttab', 'x',
          '</script>', '=SUM(A1)', "O'Reilly", 'UBER *EATS 8005928996 CA', '{curly} {0}', 'a,b;c|d', '"quoted"', 'tab\there', '-', '0', 'nan',
-         'WIDGET WORLD\n\nREF 998877', 'blank\n  \ninside', 'ends with newline\n']
-FIELD_VALS = ['', ' v1 ', 'WA', 'a b', 'ACH', 'x,y', '"q"', 'Ünï', '{z}', '0', 'for {memo} order', '{type}', 'see {merchant}', '{{memo}}', '{']
+         'WIDGET WORLD\n\nREF 998877', 'blank\n  \ninside', 'ends with newline\n',
+         # characters str.splitlines() treats as line ends although neither file iteration nor the csv module does
+         'line\u2028sep', 'para\u2029sep', 'nel\x85x', 'form\x0cfeed', 'fs\x1cx', 'vt\x0bx']
+FIELD_VALS = ['', ' v1 ', 'WA', 'a b', 'ACH', 'x,y', '"q"', 'Ünï', '{z}', '0', 'u\u2028v', 'n\x85l', 'for {memo} order', '{type}', 'see {merchant}', '{{memo}}', '{']
 DATE_FORMATS = ['%m/%d/%Y', '%Y-%m-%d', '%d.%m.%Y', '%d %b %y', '%b %d, %Y', '%Y%m%d', '%m/%d/%y']
 
 
